@@ -26,6 +26,47 @@ add("C03",
     "trusts vlib/refcal.py (self-checked against datetime.date each run) and "
     "the Monday 2000-01-03 weekday anchor")
 
+add("C01",
+    "Hypothesis-generated (point, exact duration, operator) cases; differential "
+    "oracle = independent closed-form calendar/instant model",
+    "Generated points (3 representations x 5 time forms incl. 24:00 x offsets "
+    "to +-99:59 x years through 0/negative, 4 modes/7 spellings) plus exact "
+    "durations (week/unit form, either or mixed sign, integer or decimal) are "
+    "added/subtracted and the result's native fields are re-read through an "
+    "independent day-number model: instant shift exact (1 us with decimals), "
+    "representation/offset kept, fields a real date-time, p-d == p+(-d). The "
+    "histogram of day/month/year/leap-day/century/week-year crossings per "
+    "representation and direction is reported. Exploration only.",
+    "trusts vlib/refcal.py; decimal cases are held to 1 microsecond")
+add("C02",
+    "Hypothesis-generated pairs/triples (independent, same-instant re-spellings,"
+    " near neighbours); oracle = sign of exact instant difference",
+    "All six operators, symmetry, hash equality, transitivity via sort order, "
+    "set size, dict lookup and the sign of a-b are compared with the order of "
+    "exact rational instants computed by the reference model from the "
+    "generated fields. Exploration only.",
+    "trusts vlib/refcal.py; decimals restricted to dyadic fractions so that "
+    "equal instants are exact in floats")
+add("C04",
+    "Hypothesis-generated point pairs and (point, duration) pairs; oracle = "
+    "exact instant distance + round-trip/metamorphic identities",
+    "a-b is compared with the exact distance of reference instants (length, no "
+    "nominal part, one sign, normalised h/m/s), (a-b) == -(b-a), b+(a-b) "
+    "lands on a's instant and == a, (p+d)-p == d. Distances from 0 to ~24000 "
+    "years incl. across year 0. Exploration only.",
+    "trusts vlib/refcal.py; 1 microsecond tolerance with decimals; add-back "
+    "clause bounded to 2e5/2e6 days")
+add("C06",
+    "Hypothesis-generated (point, destination offset, route) cases; oracle = "
+    "instant invariance via reference model + independent text decoder",
+    "to_time_zone/to_utc/to_local_time_zone (faked system zone) and dumps with "
+    "literal zones are checked for: requested offset carried, instant "
+    "unchanged, representation kept, valid fields, library ==/hash/zero "
+    "difference, dumped text ends with the literal zone and decodes (own "
+    "positional decoder) to the same instant. Exploration only.",
+    "trusts vlib/refcal.py and vlib/forms.py; the system zone is substituted "
+    "through metomi.isodatetime.timezone.time like the repo's own conftest")
+
 NOT_YET = {}
 
 
